@@ -469,7 +469,7 @@ pub fn oracle_inputs(rng: &mut Rng, thorough: bool) -> Vec<Input> {
         }
     }
     // 9. random byte-level mutations of corpus templates (splice, duplicate, swap)
-    let n_rand = if thorough { 20_000 } else { 1000 };
+    let n_rand = if thorough { 10_000 } else { 1000 };
     let frags = ["{{", "}}", "{%", "%}", "{#", "#}", "-", "(", ")", "[", "]", "{", "}", "\"", "'", "`", "\\", "|", ".", ",", ":", "=", "<", ">", "/",
         "if", "else", "elif", "endif", "for", "in", "endfor", "not", "is", "and", "or", "raw", "endraw", "set", "block", "é", "😀", " ", "\n", "0", "...", "?.", "?["];
     for k in 0..n_rand {
